@@ -146,9 +146,10 @@ CLAIMS = {
              "DistanceCmp/DistanceLt/DistanceGt equal the lexicographic comparison of the two XOR distances (spec function dcmpFrom, "
              "inductive loop invariant), Distance/XORBytes are the pointwise XOR of length min, LeadingZeros is the index of the first set bit. "
              "Every obligation (postconditions, loop invariants, bounds, frames) is generated from the SSA of /repo's current source and discharged by an SMT solver. "
-             "The enumeration-order clauses (Cache.ForEach/Closest/ForEachCloser) are not yet claimed by this check.",
+             "Enumeration: Cache.ForEach visits every bucket exactly once unless the callback stops it, in the order bucket(lz), deeper buckets with distance bit 1 by increasing depth, deeper buckets with bit 0 by decreasing depth, shallower buckets by decreasing depth "
+             "(ghost visited-set and phase/last variables, loop invariants); that this bucket order is the nearest-first order of entries is a separate lemma checked for 32-bit keys on every run (bounded, not counted as proved).",
         design_ref="DESIGN.md section 5, C19",
-        note=TRUST + "math/bits.LeadingZeros8 by its exact table model. Not covered yet: cache enumeration order.",
+        note=TRUST + "math/bits.LeadingZeros8 by its exact table model. Within a bucket the order rests on slices.SortFunc (assumed). The bucket-order lemma is bounded (32-bit keys). ForEachCloser/Closest are thin wrappers over ForEach and are not under contract.",
     ),
 }
 for _c in CLAIMS.values():
